@@ -19,7 +19,7 @@ CONSTANTS
   SigSeqs <- NoSeqs
   BurnVals <- NoVals
   Acceptance = "written"
-  CountsUnverified = TRUE
+  CountsUnverified = FALSE
   RewardNeedsStake = TRUE
   GenModes <- Both
   GenLen = 2
